@@ -359,7 +359,7 @@ func (c *checker) program(src string, f feat, exhaustiveBudgets bool) {
 		if same && sawEqual < 0 {
 			sawEqual = h
 		}
-		if !same && sawEqual >= 0 {
+		if !same && sawEqual >= 0 && !f.swallow { // with a swallowing form an equal outcome can be a coincidence
 			c.violate("height-limit-not-monotone", k, fmt.Sprintf("limit %d already gave the unlimited outcome", sawEqual), res.out.Full())
 		}
 	}
@@ -380,7 +380,7 @@ func (c *checker) program(src string, f feat, exhaustiveBudgets bool) {
 		if same && sawEqual < 0 {
 			sawEqual = m
 		}
-		if !same && sawEqual >= 0 {
+		if !same && sawEqual >= 0 && !f.swallow {
 			c.violate("nesting-limit-not-monotone", k, fmt.Sprintf("limit %d already gave the unlimited outcome", sawEqual), res.out.Full())
 		}
 	}
@@ -675,6 +675,60 @@ func special(r *core.Run) {
 	}
 	// (c) refill across entry points: after entry A died of the budget (every n), entry B has a full budget
 	refill(r)
+	// (d) the tail-iteration bound is exact whatever the call stack did meanwhile: a tail loop of N turns
+	// whose body recurses d frames deep, under every bound t, in a FRESH runtime each time (a runtime
+	// that has never been that deep) and again in the same, now warmed, runtime.  The verdict must not
+	// depend on d or on the runtime's past.
+	tailExact(r)
+}
+
+const tailPrelude = "(defun deep (k) (if (<= k 0) 0 (+ 1 (deep (- k 1))))) (defun tl (n d) (if (<= n 0) 'done (progn (deep d) (tl (- n 1) d))))"
+
+func tailRun(g *rig, n, d, t int) string {
+	res := g.run(fmt.Sprintf("(tl %d %d)", n, d), limits{TailIter: t})
+	if res.clean != "" {
+		return "dirty:" + res.clean
+	}
+	if res.out.IsErr {
+		return "ERR<" + res.out.Cond + ">"
+	}
+	return "VAL<" + res.out.Text + ">"
+}
+
+func tailCase(k kase) (bool, string) {
+	var n, d, t int
+	fmt.Sscanf(k.Why, "tail-exact n=%d d=%d t=%d", &n, &d, &t)
+	ref := newRig()
+	ref.env.Load(tailPrelude)
+	want := tailRun(ref, n, 0, t)
+	g := newRig()
+	g.env.Load(tailPrelude)
+	fresh := tailRun(g, n, d, t)
+	warm := tailRun(g, n, d, t)
+	rep := fmt.Sprintf("(tl %d %d) under a tail-iteration bound of %d: body depth 0 => %s; body depth %d in a fresh runtime => %s; again in the same runtime => %s", n, d, t, want, d, fresh, warm)
+	return fresh != want || warm != want, rep
+}
+
+func tailExact(r *core.Run) {
+	depths := []int{0, 3, 20, 40, 80, 200, 600}
+	var ks []kase
+	for n := 1; n <= 6; n++ {
+		for _, d := range depths {
+			for t := 1; t <= n+1; t++ {
+				ks = append(ks, kase{Src: tailPrelude, Lim: limits{TailIter: t}, Why: fmt.Sprintf("tail-exact n=%d d=%d t=%d", n, d, t)})
+			}
+		}
+	}
+	r.Bound("tail_exact_cases", len(ks))
+	core.ParallelRange(r, int64(len(ks)), nil, func(_ struct{}, i int64) {
+		bad, rep := tailCase(ks[i])
+		r.AddEvals(3)
+		r.AddTransitions(1)
+		r.Outcome("tail-exact")
+		if bad {
+			r.Violate("c04", "special:tail-bound-depends-on-stack-depth", ks[i], "the same verdict as with a shallow loop body", rep, "")
+		}
+	})
 }
 
 func specialReplay(class string, k kase) (bool, string) {
@@ -718,6 +772,8 @@ func specialReplay(class string, k kase) (bool, string) {
 		}
 	case "special:refill":
 		return refillCase(k)
+	case "special:tail-bound-depends-on-stack-depth":
+		return tailCase(k)
 	}
 	return false, "unknown special class"
 }
